@@ -60,6 +60,8 @@ struct JobOut {
     machinery: Option<String>,
     /// digest of everything emitted (determinism re-check)
     digest: u128,
+    /// first clean frame of every shape, with the context it was validated in (self-test input)
+    clean: BTreeMap<String, (Vec<u8>, mon::Ctx)>,
 }
 
 /// IPv4 scenarios: {68 (RFC 791 minimum), 69, 576, 1500}; IPv6: {1280 (RFC 8200 minimum), 1281, 1500};
@@ -133,6 +135,9 @@ fn run_job(j: &Job, trace: bool) -> (JobOut, Vec<String>) {
         }
         dig.push_str(&hex(&rec.frame));
         dig.push('|');
+        if j.caps == 0 && rec.verdict.findings.is_empty() && rec.verdict.undecodable.is_none() && !out.clean.contains_key(&rec.verdict.shape) {
+            out.clean.insert(rec.verdict.shape.clone(), (rec.frame.clone(), rec.ctx.clone()));
+        }
         for f in &rec.verdict.findings {
             out.findings.push((
                 f.sig(),
@@ -219,6 +224,52 @@ pub fn run(tier: Tier) -> i32 {
         pending += o.pending_trains;
         abandoned += o.abandoned_trains;
         raw_frames += o.raw_frames;
+    }
+    // monitor self-test: the validator must not be blind. Every single-bit-pattern mutant of the
+    // first 128 octets of one clean frame per shape is validated by a fresh monitor; evidence
+    // only (a mutant can be a different but equally valid frame: ports, sequence numbers, hop
+    // limits, link addresses, fragments whose upper layer is only checked after reassembly).
+    {
+        let mut clean: BTreeMap<String, (Vec<u8>, mon::Ctx)> = BTreeMap::new();
+        for (o, _) in outs.iter() {
+            for (k, v) in &o.clean {
+                clean.entry(k.clone()).or_insert_with(|| v.clone());
+            }
+        }
+        let items: Vec<(&String, &(Vec<u8>, mon::Ctx))> = clean.iter().collect();
+        let res: Vec<(String, u64, u64)> = items
+            .par_iter()
+            .map(|(shape, (frame, ctx))| {
+                let (mut n, mut hit) = (0u64, 0u64);
+                let mut m = frame.clone();
+                for pos in 0..frame.len().min(128) {
+                    for x in [0x01u8, 0x10, 0x80, 0xff] {
+                        m.copy_from_slice(frame);
+                        m[pos] ^= x;
+                        n += 1;
+                        if !mon::Monitor::new().validate(&m, ctx).findings.is_empty() {
+                            hit += 1;
+                        }
+                    }
+                }
+                let class = shape.split('|').next().unwrap_or("").split('/').take(3).collect::<Vec<_>>().join("/");
+                (class, n, hit)
+            })
+            .collect();
+        let mut per: BTreeMap<String, (u64, u64)> = BTreeMap::new();
+        let (mut n, mut hit) = (0u64, 0u64);
+        for (c, a, b) in res {
+            let e = per.entry(c).or_insert((0, 0));
+            e.0 += a;
+            e.1 += b;
+            n += a;
+            hit += b;
+        }
+        rep.cov(
+            "monitor_self_test",
+            json!({"rule": "one clean frame per distinct shape (default capabilities); each of the first 128 octets XORed with 01, 10, 80, ff; a fresh monitor validates the mutant", "clean_frames": clean.len(), "mutants": n, "mutants_flagged": hit,
+                "per_class(mutants,flagged)": per.iter().map(|(k, v)| (k.clone(), json!([v.0, v.1]))).collect::<BTreeMap<_, _>>()}),
+        );
     }
     // determinism: every 8th job is executed again and must emit byte-identical frames
     let recheck: Vec<usize> = (0..js.len()).filter(|i| i % 8 == 0).collect();
